@@ -283,7 +283,7 @@ pub fn multiline_text() -> BoxedStrategy<String> {
 
 pub fn run(cfg: &RunCfg) -> PropRun {
     let mut run = PropRun::default();
-    run.rule = "every Err returned by Version::parse and Range::parse over: the C05 domains (exhaustive short strings, all single edits of canonical versions, length/integer limit family, spelled versions with edits, token soup) plus garbage-only range texts and multi-line/multi-byte soups. Oracle: input()==argument, offset() a char boundary <= len, span/offset agree, location() recomputed from the offset (column in bytes or chars), every miette accessor and two report handlers render, kinds prescribed by the statement (MaxLengthError / MaxIntError(value)@component / ParseIntError / NoValidRanges). Non-trivial = error with offset > 0 or an input containing newlines / non-ASCII; distinct by (call, input).".into();
+    run.rule = "every Err returned by Version::parse and Range::parse over: the C05 domains (exhaustive short strings, all single edits of canonical versions, length/integer limit family, spelled versions with edits, token soup) plus garbage-only range texts, multi-line/multi-byte soups and 9 shapes of very long inputs at 34 lengths up to 3 MB (both sides of 2^9..2^20). Oracle: input()==argument, offset() a char boundary <= len, span/offset agree, location() recomputed from the offset (column in bytes or chars), every miette accessor and two report handlers render, kinds prescribed by the statement (MaxLengthError / MaxIntError(value)@component / ParseIntError / NoValidRanges). Non-trivial = error with offset > 0 or an input containing newlines / non-ASCII; distinct by (call, input).".into();
     run.assumptions = vec![
         "the column unit is not fixed by the statement: bytes or characters both accepted".into(),
         "kinds are asserted only where the statement prescribes one".into(),
@@ -300,6 +300,10 @@ pub fn run(cfg: &RunCfg) -> PropRun {
 
 pub fn replay(campaign: &str, case: &Value) -> Result<(), Failure> {
     let bad = |e: serde_json::Error| Failure::new("bad-replay", e.to_string());
+    if campaign == "huge-inputs" {
+        let (shape, n): (usize, usize) = serde_json::from_value(case.clone()).map_err(bad)?;
+        return check_string(&gs::huge_input(shape, n), &mut Stats::default());
+    }
     if campaign == "primed-text" {
         let (prime, s): (String, String) = serde_json::from_value(case.clone()).map_err(bad)?;
         let _ = guard(|| Version::parse(&prime).is_ok());
